@@ -584,6 +584,7 @@ class CaseRunner:
             else:
                 non_idx.append(k)
         assumptions = list(ob.assumptions) + list(pc)
+        self._cur_pc = list(pc)
         self._dctx = (norm, ctx, ob, pi, nums, dens, assumptions, tiny_idx + non_idx + raw_idx)
         # ---- Q-exact on the unexpanded numerators (solver re-derives the normal form)
         ok = True
@@ -872,10 +873,32 @@ class CaseRunner:
             else:
                 if ob.box and ("atom:" + info["node"].op) in ob.box:
                     lo, hi = ob.box["atom:" + info["node"].op]
+                    if info["node"].op != "uf" and not self._atom_box_holds(norm, ctx, ob, g, _frac(lo), _frac(hi)):
+                        return None
                     boxes[g] = (_frac(lo), _frac(hi))
                 else:
                     return None
         return boxes
+
+    def _atom_box_holds(self, norm, ctx, ob, g, lo, hi):
+        """a box claimed for a defined atom (root, log, exp, erf ...) is an obligation, not an assumption:
+        domain /\\ axioms /\\ (atom < lo \\/ atom > hi) must be unsat.  (uf atoms are exempt: identities
+        that are linear in them are scale-invariant, their box is a normalisation.)"""
+        cache = self.__dict__.setdefault("_atom_box_cache", {})
+        key = (id(norm), g, lo, hi, tuple(a.id for a in ob.assumptions))
+        if key in cache:
+            return cache[key]
+        info = norm.gen_info[g]
+        em = Emitter(norm)
+        name = em.ref(info["node"])
+        asserts = self._domain_asserts(em, list(ob.assumptions) + list(getattr(self, "_cur_pc", [])))
+        asserts.append("(or (< %s %s) (> %s %s))" % (name, smtq(lo), name, smtq(hi)))
+        r = self.solve(em.script(asserts), "z3", self.budget.cex_timeout)
+        ok = r.status == "unsat"
+        if not ok:
+            self.inconclusive.append({"obligation": ob.name, "reason": "box %s..%s claimed for atom %s is not implied by the domain (%s)" % (float(lo), float(hi), info["name"], r.status)})
+        cache[key] = ok
+        return ok
 
     def q_tol(self, norm, ctx, ob, pi, idx, nums, dens, polys, assumptions):
         """|num/den| <= tol on the box via monomial relaxation (QF_LRA); falls back to boxed NRA"""
